@@ -3,11 +3,19 @@ import MJ.Proofs.MetaBasic
 shrinks the report and never touches an empty stack (C18). -/
 namespace MJ.Meta
 
+/-- a block body walked with a scope stack of its own, the stack restored afterwards -/
+theorem step_block {st inner : St} (h : Step { st with assigned := [[]] } inner) :
+    Step st { inner with assigned := st.assigned } := by
+  refine ⟨fun f fs hf => ⟨f, hf⟩, fun x hx => h.rep x hx, fun x hx => h.out x hx, ?_,
+    h.mode⟩
+  intro f fs _
+  exact h.bad [] [] rfl
+
 mutual
 theorem step_walk : (s : Stmt) → (st : St) → Step st (walk st s)
   | .emit e, st => by simp only [walk]; exact step_visitExpr st e
   | .raw, st => by simp only [walk]; exact Step.refl st
-  | .forLoop target iter filter body els, st => by
+  | .forLoop target iter filter _ body els, st => by
       simp only [walk]
       refine Step.trans (b := (walkList ((visitOpt (trackAssign (visitExpr st.push iter) target)
         filter).assign "loop") body).pop) ?_ ?_
@@ -50,11 +58,16 @@ theorem step_walk : (s : Stmt) → (st : St) → Step st (walk st s)
         (step_walkList body _)
   | .callBlock callee cargs args defaults body, st => by
       simp only [walk]
-      refine Step.trans (step_visitVars st (varsCall callee cargs)) ?_
+      refine Step.trans (step_visitLeaves st (nvarsCall callee cargs)) ?_
       apply step_of_scope
       exact Step.trans (Step.trans (step_assign _ "caller") (step_macroArgs _ _ _))
         (step_walkList body _)
-  | .doStmt callee cargs, st => by simp only [walk]; exact step_visitVars st _
+  | .doStmt callee cargs, st => by simp only [walk]; exact step_visitLeaves st _
+  | .brk, st => by simp only [walk]; exact Step.refl st
+  | .cont, st => by simp only [walk]; exact Step.refl st
+  | .block _ body, st => by
+      simp only [walk]
+      exact step_block (step_walkList body _)
 theorem step_walkList : (ss : List Stmt) → (st : St) → Step st (walkList st ss)
   | [], st => by simp only [walkList]; exact Step.refl st
   | s :: ss, st => by
